@@ -320,8 +320,9 @@ fn is_room_member_content_key_retained(
             rules.keep_room_member_join_authorised_via_users_server
         }
         "third_party_invite" if rules.keep_room_member_third_party_invite_signed => {
+            // A value that is not an object has no `signed` field to keep.
             let Some(third_party_invite) = value.as_object_mut() else {
-                return Err(RedactionError::not_of_type("third_party_invite", JsonType::Object));
+                return Ok(false);
             };
 
             third_party_invite.retain(|key, _| key == "signed");
